@@ -20,4 +20,26 @@ theorem is_byte_range_valid_eq (start stop length : Option Int) :
   cases start <;> cases stop <;> cases length <;>
     simp only [Gen.PyFns_Range.is_byte_range_valid, Cond.isByteRangeValid] <;> grind
 
+/-- `Range.range_for_length`, as translated from the current source of
+`werkzeug/datastructures/range.py` (the unit / `None` / single-range guard, `self.ranges[0]`, the
+open-ended and suffix adjustments, the call of `is_byte_range_valid`, `min(end, length)`), never
+raises (`self.ranges[0]` is only reached for a one-element list) and returns exactly the model's
+`rangeForLength`, for every unit text, every list of `(begin, end)` pairs and every length. -/
+theorem range_for_length_eq (units : List Char) (ranges : List (Int × Option Int))
+    (length : Option Int) :
+    Gen.PyFns_Range.range_for_length units ranges length
+      = .ok (Cond.rangeForLength ⟨units, ranges⟩ length) := by
+  unfold Gen.PyFns_Range.range_for_length Cond.rangeForLength
+  cases length with
+  | none => rfl
+  | some l =>
+    simp only [is_byte_range_valid_eq]
+    match ranges with
+    | [] => simp
+    | [(s, e)] => cases e <;> simp [Pre.getItem, Cond.bytesUnit] <;> grind
+    | _ :: _ :: _ => simp <;> grind
+
+example : (Gen.PyFns_Range.range_for_length "bytes".toList [(-3, none)] (some 10)).toOption
+    = some (some (7, 10)) := by decide
+
 end Wz.Props.C11T
